@@ -228,9 +228,17 @@ class C11(Prop):
             if first.ok:
                 again = ctx.call(first.value.intersection, Regex("(a|b|c)*"))
                 if ctx.returns(again, "C11.cfg.intersection", what="(g & r) & (a|b|c)* on an empty g & r"):
+                    # ("empty" above means: no word up to the bound; the grammars may still generate longer words, so
+                    # the exact verdicts of the two results are compared with each other and the words up to the bound
+                    # with the reference)
+                    e0 = ctx.call(first.value.is_empty)
                     e = ctx.call(again.value.is_empty)
-                    ctx.expect(e.ok and e.value is True, "C11.cfg.lang", what="(g & r) & (a|b|c)* on an empty g & r",
-                               got=e.describe())
+                    ctx.expect(e.ok and e0.ok and e.value is e0.value, "C11.cfg.lang",
+                               what="(g & r) & (a|b|c)* on an empty g & r", got=e.describe(), first=e0.describe())
+                    x2 = ctx.call(O.extract_cfg, again.value)
+                    if x2.ok:
+                        ctx.expect(not x2.value.lang_upto(n), "C11.cfg.lang", what="(g & r) & (a|b|c)* on an empty g & r",
+                                   got="words up to the bound")
         if case[0] == "pda" and not want:
             # an empty intersection used again (the library hands out PDA(), without start state, for some of them)
             first = ctx.call(left.intersection, right)
